@@ -143,6 +143,12 @@ func (r *Run) Failed() bool {
 // the runner / task wrapper).
 func (r *Run) Violate(prop, oracle, sig, format string, a ...any) {
 	msg := fmt.Sprintf(format, a...)
+	if prop != r.Prop && r.Prop != "" {
+		// a check reports only its own property; the other property's check
+		// runs the same engine with that property in focus
+		r.Probe("other_property_oracle_tripped_" + prop + "/" + oracle)
+		return
+	}
 	r.mu.Lock()
 	for i := range r.known {
 		k := &r.known[i]
